@@ -116,6 +116,8 @@ BASES = {
     'gpu': lambda: mk_node('n1', comps=[mk_comp('c2', ComponentType.GPU, user_data=0)], capacities=0),
     'nic': lambda: mk_node('n1', comps=[smartnic('c1', 2)]),
     'nic0': lambda: mk_node('n1', comps=[smartnic('c1', 0), mk_comp('c2', ComponentType.GPU)]),
+    # a SmartNIC described without its network service (a card as first listed, before its ports are known)
+    'nic-bare': lambda: mk_node('n1', comps=[mk_comp('c1', ComponentType.SmartNIC, labels=0), mk_comp('c2', ComponentType.GPU)]),
     'svc': lambda: mk_node('n1', nss=[mk_ns('ns1', [mk_if('i1', InterfaceType.AccessPort)], labels=0), mk_ns('ns2')]),
     'full': lambda: mk_node('n1', comps=[smartnic('c1', 1), mk_comp('c2', ComponentType.GPU)],
                             nss=[mk_ns('ns1', [mk_if('i1', InterfaceType.AccessPort)], user_data=0)], labels=0, user_data=1),
